@@ -56,4 +56,22 @@ theorem demo_refs : refsResolve demo := by
   · cases hm
 
 
+/-- a variable ahead of a group with one member -/
+def tiny : Spec :=
+  .var ⟨"Int8".toList, "a".toList, [], [], []⟩
+    (.group "g".toList (.var ⟨"Int16".toList, "b".toList, [.anon 2], [], []⟩ .nil) .nil)
+
+theorem tiny_ok : tiny.ok := by
+  have ha : plainName "a".toList := ⟨by decide, by decide⟩
+  have hb : plainName "b".toList := ⟨by decide, by decide⟩
+  have hg : plainName "g".toList := ⟨by decide, by decide⟩
+  exact ⟨⟨by decide, ha, by simp, by simp⟩, hg, ⟨⟨by decide, hb, by simp, by simp⟩, trivial⟩, trivial⟩
+
+theorem tiny_refs : refsResolve tiny := by
+  intro pv hpv fq sz hm
+  simp only [tiny, specVars, List.nil_append, List.mem_cons, List.append_nil, List.not_mem_nil, or_false] at hpv
+  rcases hpv with rfl | rfl
+  · cases hm
+  · simp at hm
+
 end Pydap.Dmr
